@@ -352,4 +352,20 @@ def arrowVerts (N : Nat) (d h : α) (p : Pivot) : List (V3 α) :=
   shiftZ (z + h / n 2 - d / n 2) (pyramidVerts N d d .middle) ++ shiftZ (z + (-d) / n 2) (prismVerts N (d / n 2) (h - d))
 end arrowverts
 
+/-! ## winding of a triangulation (what a consistently wound surface is; run by the driver on every generator, rows `wind`) -/
+
+/-- all directed edges `i→j, j→k, k→i` of a face list, with multiplicity -/
+def dirOf (fs : List Face) : List Mesh.Edge := fs.flatMap Mesh.dirEdges
+
+/-- the directed edges that are NOT used exactly once (a consistently wound surface has none) -/
+def windingDefects (fs : List Face) : List Mesh.Edge :=
+  let d := dirOf fs
+  d.eraseDups.filter (fun e => d.count e != 1)
+
+/-- the directed edges whose reverse is not used (on a closed, consistently wound surface there are none; on an open one
+these are the boundary edges) -/
+def unmatchedEdges (fs : List Face) : List Mesh.Edge :=
+  let d := dirOf fs
+  d.eraseDups.filter (fun e => !d.contains (e.2, e.1))
+
 end MagpyVerif.Display
